@@ -346,11 +346,13 @@ package errbase
 //@   assigns heap state.buf, heap state.headBuf, heap state.needNewline, heap state.needSpace, heap state.multiLine, heap state.notEmpty, heap state.hasDetail
 
 //@ method (*state).elideShortChildren
-//@   props C05 C09
+//@   props C05 C09 C06
 //@   requires 0 <= newEntries && newEntries <= len(self.entries)
 //@   assigns heap state.entries
 //@   ensures len(self.entries) == old(len(self.entries))
+//@   ensures[C06] wfEntries(old(self.entries)) ==> wfEntries(self.entries)
 //@   loop 1: invariant 0 <= i && len(self.entries) == old(len(self.entries))
+//@           invariant[C06] wfEntries(old(self.entries)) ==> wfEntries(self.entries)
 
 //@ method (*state).collectEntry
 //@   props C05 C09 C03 C06
@@ -360,11 +362,14 @@ package errbase
 //@   assumes[C06] wfEntry(result)
 
 //@ method (*state).formatRecursive
-//@   props C05 C09 C03 C13
+//@   props C05 C09 C03 C13 C06
 //@   requires err != nil
 //@   assigns heap state.entries, heap state.buf, heap state.headBuf, heap state.lastStack, heap state.needNewline, heap state.needSpace, heap state.multiLine, heap state.notEmpty, heap state.hasDetail, heap state.wantDetail
 //@   ensures result >= 1 && len(self.entries) == old(len(self.entries)) + result
+//@   requires[C06] wfEntries(self.entries)
+//@   ensures[C06] wfEntries(self.entries)
 //@   loop 1: invariant numChildren >= 0 && len(self.entries) == old(len(self.entries)) + numChildren
+//@           invariant[C06] wfEntries(self.entries)
 
 
 // ======================================================================================
@@ -383,20 +388,39 @@ package errbase
 //@   props C06 C05
 //@   requires[C06] wfEntry(entry)
 //@   assigns heap state.finalBuf
+//@   ensures[C06] self.redactableOutput && wfR(bbContent(old(self.finalBuf))) ==> wfR(bbContent(self.finalBuf))
 
 //@ method (*state).formatSingleLineOutput
 //@   props C06 C05
 //@   requires[C06] wfEntries(self.entries)
 //@   assigns heap state.finalBuf
+//@   ensures[C06] self.redactableOutput && wfR(bbContent(old(self.finalBuf))) ==> wfR(bbContent(self.finalBuf))
 //@   loop 1: invariant 0 - 1 <= i && i < len(self.entries)
+//@           invariant[C06] self.redactableOutput && wfR(bbContent(old(self.finalBuf))) ==> wfR(bbContent(self.finalBuf))
 
 //@ method (*state).formatEntries
 //@   props C06 C05 C09
 //@   requires len(self.entries) >= 1
 //@   requires[C06] wfEntries(self.entries)
 //@   assigns heap state.finalBuf
+//@   ensures[C06] self.redactableOutput && wfR(bbContent(old(self.finalBuf))) ==> wfR(bbContent(self.finalBuf))
 //@   loop 1: invariant 0 - 1 <= i && i < len(self.entries) - 1
+//@           invariant[C06] self.redactableOutput && wfR(bbContent(old(self.finalBuf))) ==> wfR(bbContent(self.finalBuf))
+//@   loop 2: invariant[C06] self.redactableOutput && wfR(bbContent(old(self.finalBuf))) ==> wfR(bbContent(self.finalBuf))
 //@   loop 3: invariant 0 - 1 <= i && i < len(self.entries)
+//@           invariant[C06] self.redactableOutput && wfR(bbContent(old(self.finalBuf))) ==> wfR(bbContent(self.finalBuf))
+
+
+// finishDisplay (C09: width / precision / verb handling; C06: what is handed to redact as
+// RedactableBytes is the well-formed buffer). $out is the text written to the caller's fmt.State.
+//@ method (*state).finishDisplay
+//@   props C06 C09 C05
+//@   requires self.State != nil
+//@   requires self.redactableOutput ==> typeis(self.State, redact.SafePrinter)
+//@   requires[C06] self.redactableOutput ==> wfR(bbContent(self.finalBuf))
+//@   assigns heap state.finalBuf
+//@   ensures[C09] !self.redactableOutput && (verb == 'v' || verb == 's') && !(stHasWidth(self.State) && stWidth(self.State) > 0) && !stHasPrec(self.State) ==> $out == old($out) + bbContent(old(self.finalBuf))
+//@   ensures[C09] !self.redactableOutput && !((verb == 'v' || verb == 's') && !(stHasWidth(self.State) && stWidth(self.State) > 0) && !stHasPrec(self.State)) ==> $out == old($out) + sprintf1(mkFormat(ifaceOf(self), verb), ifaceOf(bbContent(old(self.finalBuf))))
 
 //@ global invariant specialcases_nonnil: forall i int :: 0 <= i && i < len(specialCases) ==> specialCases[i] != nil
 
